@@ -44,23 +44,15 @@ class CtxMixin:
         q = has_quant(f)
         self.pc.append(f)
         self.pcq.append(q)
-        self.full.push()
-        self.full.add(f)
         if q:
             self.nquant += 1
-        else:
-            self.solver.push()
-            self.solver.add(f)
 
     def pc_reset(self, mark):
         while len(self.pc) > mark:
             self.pc.pop()
             q = self.pcq.pop()
-            self.full.pop()
             if q:
                 self.nquant -= 1
-            else:
-                self.solver.pop()
 
     def assume(self, f):
         """add a fact to the current path (kept when leaves are merged)"""
@@ -85,14 +77,26 @@ class CtxMixin:
         return r
 
     def _check_sat(self, *extra):
+        # fresh solvers per query: z3's incremental mode degraded badly after many push/pops
         if any(has_quant(e) for e in extra):
             r = z3.unknown
         else:
-            r = STATS.timed(lambda: self.solver.check(*extra))
+            s = z3.Solver()
+            s.set('timeout', 60000)
+            s.set('rlimit', 12_000_000)
+            for f, q in zip(self.pc, self.pcq):
+                if not q:
+                    s.add(f)
+            r = STATS.timed(lambda: s.check(*extra))
         if r == z3.unsat:
             return r
         if self.nquant or r == z3.unknown:
-            r2 = STATS.timed(lambda: self.full.check(*extra))
+            s2 = z3.Solver()
+            s2.set('rlimit', 300000)
+            s2.set('smt.mbqi', False)
+            for f in self.pc:
+                s2.add(f)
+            r2 = STATS.timed(lambda: s2.check(*extra))
             if r2 == z3.unsat:
                 return r2
             if r == z3.unknown:
@@ -213,12 +217,12 @@ def has_quant(t):
     if not z3.is_expr(t):
         return False
     k = t.get_id()
-    r = _hq_cache.get(k)
-    if r is not None:
-        return r
+    hit = _hq_cache.get(k)
+    if hit is not None:
+        return hit[0]
     if z3.is_quantifier(t):
         r = True
     else:
         r = any(has_quant(c) for c in t.children())
-    _hq_cache[k] = r
+    _hq_cache[k] = (r, t)  # keep t alive: AST ids are recycled after garbage collection
     return r
